@@ -51,6 +51,7 @@ type Options struct {
 	BootNode    bool   // own node mode
 	Start       bool   // run the manage loop
 	PruneFunc   func(depth uint8)
+	FreshStores bool // own metrics DB and state store even if the manage loop is not started
 	// Connect, if set, serves p2p.Connect (outbound dials); default: always fails with ErrPeerBlocklisted
 	// (an error kind that has no side effect on the topology).
 	Connect func(ctx context.Context, addr ma.Multiaddr) (*p2p.Peer, error)
@@ -80,6 +81,10 @@ var (
 	sharedOnce   sync.Once
 	sharedSigner crypto.Signer
 	sharedSubPub subscribe.SubPub
+
+	sharedStoresOnce sync.Once
+	sharedDB         *shed.DB
+	sharedStore      storage.StateStorer
 )
 
 func shared() {
@@ -109,13 +114,32 @@ func New(t testing.TB, o Options) *Rig {
 		t.Fatal("kadrig: BinMaxPeers must be set explicitly")
 	}
 	logger := logging.New(io.Discard, 0)
-	db, err := shed.NewDB("", vdb.Opts())
-	if err != nil {
-		t.Fatal(err)
-	}
-	st, err := leveldb.NewInMemoryStateStore(logger)
-	if err != nil {
-		t.Fatal(err)
+	// Opening an in-memory leveldb costs ~100 ms (it clears a large write buffer), so rigs whose
+	// manage loop is not started share one metrics DB and one state store: such a Kad never
+	// flushes its counters and never reads the addressbook on its own, and peers are random
+	// 32-byte addresses, so rigs cannot see each other's entries. Started rigs get fresh stores.
+	var (
+		db  *shed.DB
+		st  storage.StateStorer
+		err error
+	)
+	if o.Start || o.FreshStores {
+		if db, err = shed.NewDB("", vdb.Opts()); err != nil {
+			t.Fatal(err)
+		}
+		if st, err = leveldb.NewInMemoryStateStore(logger); err != nil {
+			t.Fatal(err)
+		}
+	} else {
+		sharedStoresOnce.Do(func() {
+			if sharedDB, err = shed.NewDB("", vdb.Opts()); err != nil {
+				t.Fatal(err)
+			}
+			if sharedStore, err = leveldb.NewInMemoryStateStore(logger); err != nil {
+				t.Fatal(err)
+			}
+		})
+		db, st = sharedDB, sharedStore
 	}
 	r := &Rig{Base: boson.NewAddress(o.Base), signer: sharedSigner, db: db, store: st, opts: o, under: map[string]ma.Multiaddr{}}
 	r.AB = addressbook.New(st)
@@ -169,8 +193,10 @@ func (r *Rig) Close(t testing.TB) {
 			t.Fatalf("kadrig: Kad.Close: %v", err)
 		}
 	}
-	_ = r.db.Close()
-	_ = r.store.Close()
+	if r.opts.Start || r.opts.FreshStores {
+		_ = r.db.Close()
+		_ = r.store.Close()
+	}
 }
 
 // Underlay returns the (deterministic) underlay address used for an overlay.
